@@ -37,6 +37,10 @@ def run(ctx):
                 'exit-status and `warned` who-may-read/write rules.')
     carry_over(ctx, prog, A)
     exit_status(ctx, prog, A)
+    # the signal mask is per-process state too: an operand that leaves the handled signals blocked changes how the
+    # next one ends (shared with C16)
+    from props import c16
+    c16.signal_window(ctx, prog, A)
 
 
 def _mode_resolver(A, mode):
@@ -79,6 +83,21 @@ def carry_over(ctx, prog, A, modes=None, floor=60):
     workfn = prog.func('process', 'work')
     dead = _dead_end_funcs(prog, A)
     nloc_total = 0
+    # operands of one invocation may run in different modes (decompress one, copy the next with -cdf): what any
+    # mode's run code writes is what the next run -- of whatever mode -- may find
+    foreign = {}
+    for m2 in sorted(e.modes):
+        ml2 = schedlaws.ModeLaws(prog, A, m2)
+        roots2 = [A.model.classes[c]['fn'] for c in sorted(A.mode_classes[m2])] + [A.mode_setter[m2]]
+        for fq, f in ml2.reach(roots2).items():
+            if fq in dead:
+                continue
+            P2 = A.cg.prov(f)
+            for ins in f.insns():
+                if ins.op == 'store':
+                    l = loc_of(P2.addr(ins.ops[1]))
+                    if l:
+                        foreign.setdefault(l, []).append((m2, f, ins))
     for mode in sorted(e.modes):
         if modes is not None and mode not in modes:
             continue
@@ -164,6 +183,9 @@ def carry_over(ctx, prog, A, modes=None, floor=60):
             tgt = written if a.kind == 'w' else reads
             if (a.fn, a.ins) not in tgt.setdefault(l, []):
                 tgt[l].append((a.fn, a.ins))
+        for l, lst in foreign.items():
+            if l not in written and any(m2 != mode for m2, _, _ in lst):
+                written[l] = [(f, ins) for m2, f, ins in lst if m2 != mode]
         # mutable globals only
         nloc = 0
         for l, ws in sorted(written.items(), key=lambda x: lkey(x[0])):
